@@ -4,9 +4,11 @@
   of the handshake verdict.  Chain validity is the Boolean `chainOk` (OpenSSL's; see level_note).
 -/
 import MitmVerif.Model.C15
+import MitmVerif.Props.C14
 import MitmVerif.Model.C15_Classify
 import MitmVerif.Model.C14
 import MitmVerif.Lemmas.C14
+import MitmVerif.Lemmas.C14Hist
 import MitmVerif.Gen.C15
 namespace MitmVerif.Props.C15
 open MitmVerif MitmVerif.C15
@@ -502,6 +504,92 @@ theorem fail_sends_no_appdata (env : Env K) (child : Child) (s : St K) (c : K.σ
     rw [this]
     exact ⟨rfl, rfl, rfl, rfl⟩
 
+/-- The same failure when the server TLS layer was started on an ALREADY OPEN connection (no OpenConnection to answer — the
+    "eager" start): the failure hook and CloseConnection are emitted right after the handshake error, the tunnel goes to CLOSED, and
+    the events that were stored during the handshake (Start, …) are then handed to the child in order — a successful
+    `OpenConnectionCompleted` is not among them unless it had been stored; with nothing stored, nothing else happens and nothing was given to
+    `sendall`.  (Whether a child that reacts to a stored event with SendData gets bytes onto the wire after the failure depends on
+    the engine refusing to write — OpenSSL's behaviour, not one of `Laws`; the differential oracle asks "no application data" of the real code.) -/
+theorem fail_closes_tunnel_eager (env : Env K) (child : Child) (s : St K) (c : K.σ) (d : Bytes)
+    (hside : s.side = .server) (htls : s.tls = some c) (hr : s.replyTo = false) (he : s.errored = false)
+    (hfail : (K.handshake (feedIf c d)).1 = .error) :
+    (hsData env child s d).toChild = s.toChild ++ s.queue
+    ∧ (hsData env child s d).queue = []
+    ∧ (CEv.opened false ∉ s.queue → CEv.opened false ∉ (hsData env child s d).toChild.drop s.toChild.length)
+    ∧ (∃ more, (hsData env child s d).up = s.up ++ [.log 2, .hook 3, .close] ++ more)
+    ∧ (s.queue = [] → (hsData env child s d).st = .closed ∧ (hsData env child s d).accepted = s.accepted
+          ∧ (hsData env child s d).up = s.up ++ [.log 2, .hook 3, .close]) := by
+  have hh : K.handshake (feedIf c d) = (.error, (K.handshake (feedIf c d)).2) := by
+    rw [← hfail]
+  have hstep : hsData env child s d =
+      clearQueue (s.queue.foldl (etcCore child) (setSt (emit { s with tls := some (K.handshake (feedIf c d)).2 }
+        [.log 2, .hook 3, .close]) .closed)) := by
+    unfold hsData recvHandshake hsTls
+    simp only [hside, htls]
+    rw [hh]
+    simp only [onHandshakeError, hside, handshakeFinished, emit, setSt, hr, Bool.or_true, if_true, Bool.false_eq_true, if_false]
+    simp
+  rw [hstep]
+  have hq : queueing (setSt (emit ({ s with tls := some (K.handshake (feedIf c d)).2 } : St K) [.log 2, .hook 3, .close]) .closed) = false := by
+    simp [queueing, isEst]
+  obtain ⟨f1, _, _⟩ := Hist.foldl_etcCore_deliver child s.queue
+    (setSt (emit ({ s with tls := some (K.handshake (feedIf c d)).2 } : St K) [.log 2, .hook 3, .close]) .closed) (by simpa using he) hq
+  obtain ⟨more, hmore⟩ := Hist.up_foldl_etcCore child s.queue
+    (setSt (emit ({ s with tls := some (K.handshake (feedIf c d)).2 } : St K) [.log 2, .hook 3, .close]) .closed)
+  have htc : (clearQueue (s.queue.foldl (etcCore child) (setSt (emit ({ s with tls := some (K.handshake (feedIf c d)).2 } : St K)
+      [.log 2, .hook 3, .close]) .closed))).toChild = s.toChild ++ s.queue := by
+    simpa using f1
+  refine ⟨htc, by simp, ?_, ⟨more, by simpa using hmore⟩, ?_⟩
+  · intro hn
+    rw [htc]; simpa using hn
+  · intro hqn
+    rw [hqn]
+    simp
+
 end tunnel
+
+/-! ### witnesses proposed by the round-6 cross-audit (notes/audit6/C15.md) -/
+
+/-- W1 (`verified_identity_transport_independent_ascii`, `server_name_not_rewritten`): hypotheses hold for a host name … -/
+example :
+    let c : Cfg := ⟨false, none, some (strBytes "Example.com"), strBytes "10.0.0.1"⟩
+    effSni c ≠ [] ∧ isAscii (effSni c) = true ∧ (classifyAscii (effSni c)).isSome = true ∧ C22.parseIp (effSni c) = none
+      ∧ startServer (classifyServer (fun _ => true) (fun _ => none)) 36 c
+          = .plan ⟨true, some (strBytes "Example.com"), some (.host (strBytes "Example.com")), 36⟩
+      ∧ startServerT .quic (classifyT (fun _ => none)) 36 c
+          = .plan ⟨true, some (strBytes "Example.com"), some (.host (strBytes "Example.com")), 0⟩ := by decide +kernel
+
+/-- W2: … and for an IP literal taken from the address (no client SNI): verified as IP, no SNI extension on TCP -/
+example :
+    let c : Cfg := ⟨false, none, none, strBytes "192.0.2.7"⟩
+    effSni c ≠ [] ∧ isAscii (effSni c) = true ∧ (C22.parseIp (effSni c)).isSome = true
+      ∧ startServer (classifyServer (fun _ => true) (fun _ => none)) 36 c = .plan ⟨true, none, some (.addr [4, 192, 0, 2, 7]), 36⟩
+      ∧ startServerT .quic (classifyT (fun _ => none)) 36 c
+          = .plan ⟨true, some (strBytes "192.0.2.7"), some (.addr [4, 192, 0, 2, 7]), 0⟩ := by decide +kernel
+
+/-- W3 (`insecure_off_requires_verify_any_transport`): established on the QUIC path with verification on; failed for a CN-less mismatch -/
+example :
+    outcomeT .quic classifyAscii 36 ⟨false, none, some (strBytes "a.example.com"), strBytes "10.0.0.1"⟩ true [.dns (strBytes "*.example.com")] = .established
+    ∧ outcomeT .quic classifyAscii 36 ⟨false, none, some (strBytes "a.b.example.com"), strBytes "10.0.0.1"⟩ true [.dns (strBytes "*.example.com")] = .failed
+    ∧ outcomeT .tcp classifyAscii 36 ⟨false, some [], some (strBytes "x"), strBytes "10.0.0.1"⟩ true [] = .hookRaised := by decide +kernel
+
+/-- W4 (`fail_sends_no_appdata`): its hypotheses hold together on a REACHABLE state of the C14 tunnel model over the proved-lawful
+    reference codec: ServerTLSLayer opened by the child's OpenConnection, handshake in progress, then a fatal handshake record -/
+example :
+    let child : C14.Child := fun _ e => match e with | .start => [.open_] | _ => []
+    let env := Props.C14.refEnv true (fun _ => .complete) false
+    let s := C14.run env child (Props.C14.init C14.RefL.refCodec .server) [.start false, .openReply false]
+    let d : Bytes := [0x16, 0, 1, 2]
+    s.side = .server ∧ s.replyTo = true ∧ s.errored = false ∧ s.crashed = false
+      ∧ s.tls.map (fun c => decide ((C14.RefL.refCodec.handshake (C14.feedIf c d)).1 = .error)) = some true
+      ∧ (C14.hsData env child s d).toChild = s.toChild ++ [.opened true]
+      ∧ (C14.hsData env child s d).st = .closed ∧ (C14.hsData env child s d).accepted = [] := by decide +kernel
+
+/-- W5: NOT covered by `fail_sends_no_appdata` (it needs `replyTo = true`): the same failure on a ServerTLSLayer started on an already
+    open connection — the stored Start is flushed to the child after the failure, tunnel CLOSED -/
+example :
+    let env := Props.C14.refEnv true (fun _ => .complete) false
+    let s := C14.run env (fun _ _ => []) (Props.C14.init C14.RefL.refCodec .server) [.start true, .data [0x16, 0, 1, 2]]
+    s.replyTo = false ∧ s.st = .closed ∧ s.toChild = [.start] ∧ s.up.getLast? = some .close ∧ s.accepted = [] := by decide +kernel
 
 end MitmVerif.Props.C15
